@@ -1,5 +1,10 @@
 package main
 
+import (
+	"fmt"
+	"strings"
+)
+
 // ext_propfilter.go — per-property clause selection for `check Cxx` (added for C01/C02).
 //
 // Several properties put clauses on the same function (one contract per function). A clause may carry its own property tag
@@ -10,6 +15,11 @@ package main
 // so no obligation can pass that would otherwise fail. Contracts of CALLEES are never filtered: a caller may rely on every
 // postcondition of a callee, whichever property's check proves it. Untagged clauses belong to every property of the function.
 // Outside `check` (development runs with -func / -prop) nothing is filtered.
+//
+// The filter can only REMOVE assumptions from a run. If a clause of the checked property needs a clause that was left out (say a
+// C02 invariant that rests on a C01 invariant), its obligation fails in that run - loudly, never silently: give the needed clause both
+// tags (`@C01,C02`) or leave it untagged. Every clause left out is listed in the evidence of the run (assumptions:
+// "clause left out of this run ...").
 
 var clauseFilterProp string
 
@@ -62,4 +72,32 @@ func preProvedByOtherCheck(cl Clause, fc *FnCtx) bool {
 		}
 	}
 	return true
+}
+
+// noteLeftOutClauses records, in the assumption list of the run (-> evidence), every clause of the verified function that the
+// property filter left out.
+func noteLeftOutClauses(fc *FnCtx, spec *FuncSpec) {
+	if spec == nil || clauseFilterProp == "" {
+		return
+	}
+	note := func(kind string, cl Clause) {
+		if clauseActive(cl) {
+			return
+		}
+		fc.assumes["clause left out of this run (check "+clauseFilterProp+"): "+spec.Key+" "+kind+" ["+cl.Label+"] belongs to "+strings.Join(cl.Props, ",")+" and is proved by that check"] = true
+	}
+	for _, cl := range spec.Requires {
+		note("requires", cl)
+	}
+	for _, cl := range spec.Ensures {
+		note("ensures", cl)
+	}
+	for n, cs := range spec.LoopInv {
+		for _, cl := range cs {
+			note(fmt.Sprintf("loop %d invariant", n), cl)
+		}
+	}
+	for _, h := range spec.Hints {
+		note("hint "+h.Where, h.Clause)
+	}
 }
